@@ -118,3 +118,95 @@ def rstrip_char(env, s, ch):
         from .libmodels import rstrip_char as rc
         return rc(env._it, s, ch)
     return s.rstrip(ch)
+
+
+def exists_in(seq, pred):
+    """some element of seq satisfies pred"""
+    if sym(seq):
+        x = z3.Const('bv!x', seq.sort().basis())
+        return z3.Exists([x], z3.And(z3.Contains(seq, z3.Unit(x)), pred(x)))
+    return any(pred(x) for x in seq)
+
+
+def member(seq, x):
+    if sym(seq, x):
+        return z3.Contains(seq, z3.Unit(_lift(x, None)))
+    return x in seq
+
+
+def one_of(x, *cands):
+    return Or(*[Eq(x, c) for c in cands])
+
+
+def split(s, sep):
+    """s.split(sep) -- the same uninterpreted symbol the engine uses for the code"""
+    if sym(s):
+        f = z3.Function('py_split', z3.StringSort(), z3.StringSort(), z3.SeqSort(z3.StringSort()))
+        return f(s, z3.StringVal(sep))
+    return s.split(sep)
+
+
+def nth(seq, i):
+    if sym(seq, i):
+        return seq[i]
+    return seq[i]
+
+
+class Fold:
+    """F(seq, k, params...) = value after folding `step` over seq[0:k].
+
+    Proof reading: an uninterpreted function; each mention registers the
+    defining equations at that k (one unfolding):
+        k == 0  ->  F = init(params)
+        k >  0  ->  F(seq,k) = step(F(seq,k-1), seq[k-1], k-1, params)
+    They are instances of a recursive definition, hence consistent; the
+    solver is never asked to do induction.  Heap fields that `step` reads
+    through object views are made explicit arguments of F, so a later heap
+    update cannot be confused with the state the fold was taken in.
+    CPython reading: the loop itself."""
+
+    def __init__(self, name, ret_sort, init, step, heap_fields=(), objects=False):
+        self.name = name
+        self.ret_sort = ret_sort
+        self.init = init
+        self.step = step
+        self.heap_fields = tuple(heap_fields)
+        self.objects = objects
+
+    def __call__(self, env, seq, k, *params):
+        if not sym(seq, k, *params):
+            acc = self.init(env, *params)
+            for idx in range(k):
+                acc = self.step(env, acc, seq[idx], idx, *params)
+            return acc
+        it = env._it
+        ctx = it.ctx
+        heap = env._heap
+        harrs = []
+        for f in self.heap_fields:
+            arr = heap.get(f)
+            if arr is None:
+                arr = ctx.field_array(f)
+                heap.setdefault(f, arr)
+            harrs.append(arr)
+        k = _lift(k, None)
+        params = [_lift(p, None) for p in params]
+        sorts = [seq.sort(), z3.IntSort()] + [a.sort() for a in harrs] + [p.sort() for p in params]
+        F = z3.Function('fold_' + self.name, *(sorts + [self.ret_sort]))
+
+        def app(kk):
+            return F(seq, kk, *(harrs + params))
+        term = app(k)
+        key = ('fold', self.name, term.get_id())
+        if key not in ctx.fold_instances:
+            ctx.fold_instances.add(key)
+            from .contract import ObjView
+            km1 = z3.simplify(k - 1)
+            prev = app(km1)
+            el = seq[km1]
+            hv = dict(zip(self.heap_fields, harrs))
+            elv = ObjView(it, el, hv) if self.objects else el
+            fenv = env.with_heap(hv) if hasattr(env, 'with_heap') else env
+            ctx.assume(z3.Implies(k == 0, term == _lift(self.init(fenv, *params), None)))
+            ctx.assume(z3.Implies(k > 0, term == _lift(self.step(fenv, prev, elv, km1, *params), None)))
+        return term
